@@ -117,7 +117,10 @@ package annotations
 //@ ensures count: implies(result1 == nil, len(result0.attributes) == countAttrLines(commentBlock, len(commentBlock.Comments)) && len(result0.attributes)+len(result0.nonAttributeComments) == len(commentBlock.Comments))
 //@ ensures attrs: implies(result1 == nil, forall(k, 0, len(commentBlock.Comments), implies(isAttrLine(commentBlock.Comments[k]), result0.attributes[countAttrLines(commentBlock, k)].Comment == commentBlock.Comments[k])))
 //@ ensures free: implies(result1 == nil, forall(k, 0, len(commentBlock.Comments), implies(!isAttrLine(commentBlock.Comments[k]), result0.nonAttributeComments[k-countAttrLines(commentBlock, k)].Comment == commentBlock.Comments[k] && result0.nonAttributeComments[k-countAttrLines(commentBlock, k)].Index == commentBlock.Comments[k].Index)))
+// free text is kept as written: the comment marker and the blanks around the text go, nothing else
+//@ ensures freeText: implies(result1 == nil, forall(k, 0, len(commentBlock.Comments), implies(!isAttrLine(commentBlock.Comments[k]), result0.nonAttributeComments[k-countAttrLines(commentBlock, k)].Value == strings.Trim(ite(strings.HasPrefix(commentBlock.Comments[k].Text, "//"), commentBlock.Comments[k].Text[2:], commentBlock.Comments[k].Text), " "))))
 //@ loop 0 invariant 0 <= _n && _n <= len(commentBlock.Comments)
+//@ loop 0 invariant forall(k, 0, _n, implies(!isAttrLine(commentBlock.Comments[k]), holder.nonAttributeComments[k-countAttrLines(commentBlock, k)].Value == strings.Trim(ite(strings.HasPrefix(commentBlock.Comments[k].Text, "//"), commentBlock.Comments[k].Text[2:], commentBlock.Comments[k].Text), " ")))
 //@ loop 0 invariant len(holder.attributes) == countAttrLines(commentBlock, _n) && len(holder.attributes)+len(holder.nonAttributeComments) == _n && fresh(holder.attributes) && fresh(holder.nonAttributeComments)
 //@ loop 0 invariant forall(k, 0, _n, 0 <= countAttrLines(commentBlock, k) && countAttrLines(commentBlock, k) <= k && countAttrLines(commentBlock, k) <= countAttrLines(commentBlock, _n) && k-countAttrLines(commentBlock, k) <= _n-countAttrLines(commentBlock, _n))
 //@ loop 0 invariant forall(k, 0, _n, implies(isAttrLine(commentBlock.Comments[k]), countAttrLines(commentBlock, k) < countAttrLines(commentBlock, _n) && holder.attributes[countAttrLines(commentBlock, k)].Comment == commentBlock.Comments[k]))
